@@ -363,7 +363,31 @@ def judge_frame(gen, inst, call, frame, cmd, timers_reported):
     return bad
 
 
-def exercise(gen, inst, calls, *, on_result):
+def churn_state(gen, inst, w, rnd):
+    """The console reports a changed state for one zone or AC (sensor presence, turbo
+    support, control method, AC mode - hence the AT5 limits); returns the frame it pushes.
+    What a request is validated against is the LATEST report."""
+    if inst["zones"] and rnd.random() < 0.6:
+        z = rnd.choice(inst["zones"])
+        st = z["status"]
+        st["sensor"] = rnd.random() < 0.6
+        st["control_method"] = "temperature" if st["sensor"] and rnd.random() < 0.5 else "damper"
+        if gen == 4:
+            st["turbo_support"] = rnd.random() < 0.5
+        if gen == 5 and not st["sensor"]:
+            st["sp_raw"] = rnd.choice([0xFF, st.get("sp_raw", 0xFF), 120])
+        return w.console.frame_zone_status()
+    a = rnd.choice(inst["acs"])
+    if gen == 5:
+        a["status"]["mode_code"] = rnd.choice([0, 1, 2, 3, 4, 8, 9])
+        a["status"]["power_code"] = rnd.choice([0, 1, 2, 3, 5])
+    else:
+        a["status"]["mode_code"] = rnd.choice([0, 1, 2, 3, 4, 8, 9])
+        a["status"]["power"] = rnd.choice(["off", "on"])
+    return w.console.frame_ac_status()
+
+
+def exercise(gen, inst, calls, *, on_result, churn=None):
     """Initialise a client against `inst`, make the calls one by one with the link up; for
     each call on_result(call, outcome, frames, timers_reported) is invoked with
     outcome = None | exception, frames = [(Frame, cmd)] written during the call."""
@@ -377,6 +401,12 @@ def exercise(gen, inst, calls, *, on_result):
             return
         await quiesce(loop)
         for call in calls:
+            if churn is not None and churn.random() < 0.3:
+                c = net.current()
+                if c is not None:
+                    w.console.send(c, churn_state(gen, inst, w, churn))
+                    await quiesce(loop)
+                    status["churned"] = status.get("churned", 0) + 1
             mark = log.mark()
             nframes = len(w.console.frames)
             try:
